@@ -1806,3 +1806,132 @@ mut("c07-index-tip-cached-inside-transaction", ["C07"], [(IDX, "		return rootBuc
 mut("c12-job-error-carried-across-jobs", ["C12"], [("query/worker.go", "		var job *queryJob\n", "		var job *queryJob\n		_ = job\n"), ("query/worker.go", "			jobErr  error\n", ""), ("query/worker.go", "func (w *worker) Run(results chan<- *jobResult, quit <-chan struct{}) {\n", "func (w *worker) Run(results chan<- *jobResult, quit <-chan struct{}) {\n	var jobErr error\n")], ["C12.V2"])
 mut("c13-witness-check-only-for-witness-blocks", ["C06", "C13"], [(Q, "		if err := blockchain.ValidateWitnessCommitment(\n			block,\n		); err != nil {", "		hasWitness := false\n		for _, tx := range block.Transactions() {\n			if tx.MsgTx().HasWitness() {\n				hasWitness = true\n			}\n		}\n		var werr error\n		if hasWitness {\n			werr = blockchain.ValidateWitnessCommitment(block)\n		}\n		if err := werr; err != nil {")], ["C06.G1", "C13.G2"])
 mut("c19-block-ntfn-chan-buffered", ["C19"], [(BM, "		blockNtfnChan: make(chan blockntfns.BlockNtfn),", "		blockNtfnChan: make(chan blockntfns.BlockNtfn, 20),")], ["C19.V2"])
+
+# ---- modernised spellings (campaign U): quiet forms and their broken twins ----
+BSRF = "batch_spend_reporter.go"
+_OLD_MAXLEN = '''		if len(checkpoints) > maxLen {
+			maxLen = len(checkpoints)
+		}
+	}
+'''
+mut("quiet-modern-max-builtin", ["C03"], [(BM, _OLD_MAXLEN, '''		maxLen = max(maxLen, len(checkpoints))
+	}
+'''), (BM, "	for i := 0; i < maxLen; i++ {\n		var checkpoint chainhash.Hash", "	for i := range maxLen {\n		var checkpoint chainhash.Hash")], [])
+mut("c03-modern-min-builtin", ["C03"], [(BM, _OLD_MAXLEN, '''		maxLen = min(maxLen, len(checkpoints))
+	}
+''')], ["C03.V3"])
+_OLD_NEXTCP = '''	for i := len(checkpoints) - 2; i >= 0; i-- {
+		if height >= checkpoints[i].Height {
+			break
+		}
+		nextCheckpoint = &checkpoints[i]
+	}'''
+mut("quiet-modern-backward", ["C01", "C02"], [(BM, '''	"math/big"
+''', '''	"math/big"
+	"slices"
+'''), (BM, _OLD_NEXTCP, '''	for i := range slices.Backward(checkpoints[:len(checkpoints)-1]) {
+		if height >= checkpoints[i].Height {
+			break
+		}
+		nextCheckpoint = &checkpoints[i]
+	}''')], [])
+mut("c01-modern-backward-nonstrict", ["C01"], [(BM, '''	"math/big"
+''', '''	"math/big"
+	"slices"
+'''), (BM, _OLD_NEXTCP, '''	for i, cp := range slices.Backward(checkpoints[:len(checkpoints)-1]) {
+		if height > cp.Height {
+			break
+		}
+		nextCheckpoint = &checkpoints[i]
+	}''')], ["C01.G7"])
+_OLD_SPENDS = '''		for _, input := range ro.watchInputs {
+			switch {
+			// If we're watching for a zero outpoint, then we should
+			// match on the output script being spent instead.
+			case input.OutPoint == zeroOutPoint:
+				pkScript, err := txscript.ComputePkScript(
+					in.SignatureScript, in.Witness,
+				)
+				if err != nil {
+					continue
+				}
+
+				if bytes.Equal(pkScript.Script(), input.PkScript) {
+					return true
+				}
+
+			// Otherwise, we'll match on the outpoint being spent.
+			case in.PreviousOutPoint == input.OutPoint:
+				return true
+			}
+		}
+'''
+_NEW_SPENDS = '''		spentBy := func(input InputWithScript) bool {
+			switch {
+			case input.OutPoint == zeroOutPoint:
+				pkScript, err := txscript.ComputePkScript(
+					in.SignatureScript, in.Witness,
+				)
+				if err != nil {
+					return false
+				}
+				return bytes.Equal(pkScript.Script(), input.PkScript)
+
+			case in.PreviousOutPoint == input.OutPoint:
+				return %s
+			}
+			return false
+		}
+		if slices.ContainsFunc(%s, spentBy) {
+			return true
+		}
+'''
+_RS_IMP = [("rescan.go", '	"errors"\n	"fmt"\n	"sync"\n', '	"errors"\n	"fmt"\n	"slices"\n	"sync"\n')]
+mut("quiet-modern-containsfunc", ["C09"], _RS_IMP + [("rescan.go", _OLD_SPENDS, _NEW_SPENDS % ("true", "ro.watchInputs"))], [])
+mut("c09-modern-containsfunc-match-false", ["C09"], _RS_IMP + [("rescan.go", _OLD_SPENDS, _NEW_SPENDS % ("false", "ro.watchInputs"))], ["C09.V2"])
+mut("c09-modern-containsfunc-skips-first", ["C09"], _RS_IMP + [("rescan.go", _OLD_SPENDS, _NEW_SPENDS % ("true", "ro.watchInputs[1:]"))], ["C09.V2"])
+_OLD_REBUILD = '''		b.filterEntries = b.filterEntries[:0]
+		for _, entry := range b.outpoints {
+			b.filterEntries = append(b.filterEntries, entry)
+		}
+'''
+_BSR_IMP = [(BSRF, 'import (\n', 'import (\n	"maps"\n	"slices"\n\n')]
+mut("quiet-modern-appendseq", ["C10"], _BSR_IMP + [(BSRF, _OLD_REBUILD, '''		b.filterEntries = slices.AppendSeq(
+			b.filterEntries[:0], maps.Values(b.outpoints),
+		)
+''')], [])
+mut("c10-modern-appendseq-nothing", ["C10"], _BSR_IMP + [(BSRF, _OLD_REBUILD, '''		b.filterEntries = slices.AppendSeq(
+			b.filterEntries[:0], maps.Values(map[wire.OutPoint][]byte{}),
+		)
+''')], ["C10.V2"])
+_OLD_EXP = '''	var v [8]byte
+	banExpiration := time.Now().Add(duration)
+	byteOrder.PutUint64(v[:], uint64(banExpiration.Unix()))
+
+	if err := banIndex.Put(ipNetKey, v[:]); err != nil {'''
+mut("quiet-modern-appenduint64", ["C13"], [("banman/store.go", _OLD_EXP, '''	banExpiration := time.Now().Add(duration)
+	v := byteOrder.AppendUint64(nil, uint64(banExpiration.Unix()))
+
+	if err := banIndex.Put(ipNetKey, v); err != nil {''')], [])
+mut("c13-modern-appenduint64-prefixed", ["C13"], [("banman/store.go", _OLD_EXP, '''	banExpiration := time.Now().Add(duration)
+	v := byteOrder.AppendUint64([]byte{0}, uint64(banExpiration.Unix()))
+
+	if err := banIndex.Put(ipNetKey, v); err != nil {''')], ["C13.T4"])
+mut("quiet-modern-range-int-validatebatch", ["C14"], [("chainimport/block_headers_validator.go", '''	for i := 1; i < len(headers); i++ {
+		if err := v.ValidatePair(headers[i-1], headers[i]); err != nil {''', '''	for i := range len(headers) - 1 {
+		if err := v.ValidatePair(headers[i], headers[i+1]); err != nil {''')], [])
+mut("c14-modern-range-int-short", ["C14"], [("chainimport/block_headers_validator.go", '''	for i := 1; i < len(headers); i++ {
+		if err := v.ValidatePair(headers[i-1], headers[i]); err != nil {''', '''	for i := range len(headers) - 2 {
+		if err := v.ValidatePair(headers[i], headers[i+1]); err != nil {''')], ["C14.V2"])
+
+# C12.V3: entries of currentQueries purged when their batch ends
+mut("c12-purge-queries-of-finished-batch", ["C12"], [("query/workmanager.go", '''			batch, ok := currentBatches[batchNum]
+			if !ok {
+				log.Warnf("Query(%d) result from peer %v "+''', '''			batch, ok := currentBatches[batchNum]
+			if !ok {
+				for q, n := range currentQueries {
+					if n == batchNum {
+						delete(currentQueries, q)
+					}
+				}
+				log.Warnf("Query(%d) result from peer %v "+''')], ["C12.V3"])
